@@ -628,6 +628,13 @@ func (g *FnGen) applyContract(ci *calleeInfo, args []Term, fvs map[string]SVal, 
 			if len(excl) == 0 {
 				for _, rt := range g.knownRefsFor(k) {
 					g.emit(fmt.Sprintf("(assert (=> (<= %s %s) (= (select %s %s) (select %s %s))))", rt, allocBefore.S, nw.S, rt, old.S, rt))
+					if strings.HasPrefix(rt, "(arr_Slice_") {
+						// the same fact through the element accessor, so that quantified facts stated with it (invariants)
+						// are instantiated for the new heap
+						f := strings.Fields(strings.Trim(rt, "()"))
+						es := "elem_" + strings.TrimPrefix(f[0], "arr_")
+						g.emit(fmt.Sprintf("(assert (=> (<= %s %s) (forall ((i Int)) (! (= (%s %s %s i) (%s %s %s i)) :pattern ((%s %s %s i))))))", rt, allocBefore.S, es, nw.S, f[1], es, old.S, f[1], es, nw.S, f[1]))
+					}
 				}
 			}
 		}
@@ -871,9 +878,17 @@ func (g *FnGen) appendOp(c *ssa.CallCommon, st *State, reach string, res ssa.Val
 	g.emit(fmt.Sprintf("(assert (forall ((i Int)) (! (=> (and (<= 0 i) (< i %s)) (= (select %s (+ %s i)) %s)) :pattern (%s))))", lt, arr.S, ls, sel(t, "i"), sel(t, "i")))
 	// help the common single-element case
 	g.emit(fmt.Sprintf("(assert (=> (= %s 1) (= (select %s %s) %s)))", lt, arr.S, ls, sel(t, "0")))
-	g.hset(st, key, Term{fmt.Sprintf("(store %s %s %s)", h.S, ref.S, arr.S), h.Sort})
+	nh := fmt.Sprintf("(store %s %s %s)", h.S, ref.S, arr.S)
+	g.hset(st, key, Term{nh, h.Sort})
+	rs := fmt.Sprintf("(mk_%s %s 0 (+ %s %s))", ss, ref.S, ls, lt)
+	// the same facts through the element accessor (the form quantified invariants are stated in): the result holds
+	// s then t, and every other slice reads as before
+	g.emit(fmt.Sprintf("(assert (forall ((i Int)) (! (=> (and (<= 0 i) (< i (+ %s %s))) (= %s (ite (< i %s) %s %s))) :pattern (%s))))",
+		ls, lt, w.elemTerm(ss, es, nh, rs, "i"), ls, sel(s, "i"), sel(t, fmt.Sprintf("(- i %s)", ls)), w.elemTerm(ss, es, nh, rs, "i")))
+	g.emit(fmt.Sprintf("(assert (forall ((x %s) (i Int)) (! (=> (not (= (arr_%s x) %s)) (= %s %s)) :pattern (%s))))",
+		ss, ss, ref.S, w.elemTerm(ss, es, nh, "x", "i"), w.elemTerm(ss, es, h.S, "x", "i"), w.elemTerm(ss, es, nh, "x", "i")))
 	if res != nil {
-		g.setVal(res, Term{fmt.Sprintf("(mk_%s %s 0 (+ %s %s))", ss, ref.S, ls, lt), ss})
+		g.setVal(res, Term{rs, ss})
 	}
 }
 
@@ -1075,6 +1090,29 @@ func (g *FnGen) knownRefsFor(key string) []string {
 		want = key[strings.Index(key, ":")+1:]
 	case key == "typ":
 		return g.knownRefs()
+	case strings.HasPrefix(key, "S:"):
+		// backing arrays of the slice values in scope whose element heap is this component
+		seen := map[string]bool{}
+		var out []string
+		for v, t := range g.vals {
+			sl, ok := types.Unalias(v.Type()).Underlying().(*types.Slice)
+			if !ok || !strings.HasPrefix(t.Sort, "Slice_") || !strings.HasPrefix(t.S, "|") || !g.inScope(v) {
+				continue
+			}
+			if k, _ := g.w.sliceKey(sl.Elem()); k != key {
+				continue
+			}
+			a := fmt.Sprintf("(arr_%s %s)", t.Sort, t.S)
+			if !seen[a] {
+				seen[a] = true
+				out = append(out, a)
+			}
+		}
+		sort.Strings(out)
+		if len(out) > 12 {
+			out = out[:12]
+		}
+		return out
 	default:
 		return nil
 	}
